@@ -201,7 +201,28 @@ def _c12(prop, tier, seed, jobs, limit):
     return rc
 
 
+def _c04(prop, tier, seed, jobs, limit):
+    from . import c04
+    return run_hint_family(
+        prop, tier, seed, jobs, limit, run_case=c04.run_case, cases=c04.cases(tier, seed), level='other',
+        explanation='Bounded symbolic execution of the real generated wrapper of every enumerated signature '
+                    '(<=3 parameters quick, <=4 thorough; every legal kind order x annotated subset x defaults) over a fully '
+                    'symbolic call shape: 0..6 positional arguments, keyword presence and values for every parameter name '
+                    'and two foreign names, symbolic argument classes, callee result and callee-raises flag. Oracle: '
+                    'Python argument binding written from the language reference as z3 terms. Obligations per signature: '
+                    'no violation when every bound value fits its own annotation; no call when one misfits; each violation '
+                    'names a parameter whose own bound value misfits; result object and callee exception pass through; no '
+                    'IndexError/KeyError/unbound name for any shape. sat models are replayed on a real decorated function '
+                    'against inspect.signature.bind + isinstance.',
+        funcs=['beartype._decor._nontype._wrap._wrapargs', 'beartype._decor._nontype._wrap._wrapreturn',
+               'beartype._decor._nontype._wrap.wrapmain', 'beartype._data.check.code.func.datacodefuncwrap',
+               'beartype._util.func.arg.utilfuncargiter'],
+        extra_assumptions=['> 4 parameters, > 6 positional arguments, keyword names outside the alphabet, parameter names starting __bear are outside the claim',
+                           'the callee is modelled as returning an arbitrary object or raising an arbitrary exception'])
+
+
 RUNNERS = {
+    'C04': _c04,
     'C12': _c12,
     'C18': _c18,
     'C01': _simple,
